@@ -151,20 +151,22 @@ func (wm *Watermark) UpdateEventTime(eventTime time.Time) {
 	wm.mu.Lock()
 	defer wm.mu.Unlock()
 
-	// Update last event time for idle detection
-	wm.lastEventTime = time.Now()
-
 	// Guard against far-future timestamps (corrupt data, e.g. year-2099
 	// garbage): ignore them for watermark bookkeeping entirely. The earlier
 	// approach clamped the event to now+maxOutOfOrderness+maxFutureSlack and
 	// still ratcheted maxEventTime, which jumped the watermark ~24h ahead and
 	// dropped every real event as late for the next 24h. Discarding the corrupt
 	// timestamp here leaves real events unaffected; the corrupt event itself is
-	// still placed by the window (its far-future window simply never fires).
+	// dropped by the windows (IsFarFuture), and it does not count as activity of
+	// the source either: a stream of garbage must not keep the idle timeout from
+	// advancing the watermark.
 	ceiling := time.Now().Add(wm.maxOutOfOrderness + maxFutureSlack)
 	if eventTime.After(ceiling) {
 		return
 	}
+
+	// Update last event time for idle detection
+	wm.lastEventTime = time.Now()
 
 	if wm.maxEventTime.IsZero() || eventTime.After(wm.maxEventTime) {
 		wm.maxEventTime = eventTime
@@ -176,6 +178,13 @@ func (wm *Watermark) UpdateEventTime(eventTime time.Time) {
 	}
 	// Always attempt delivery (no-op if already sent); retries dropped sends.
 	wm.sendWatermarkLocked()
+}
+
+// IsFarFuture reports whether UpdateEventTime ignores this timestamp as corrupt (more than
+// maxOutOfOrderness + 24h ahead of the wall clock). The windows drop such a row: placed, it would
+// sit in a window that never fires, and as the first row it would pin the first window there.
+func (wm *Watermark) IsFarFuture(eventTime time.Time) bool {
+	return eventTime.After(time.Now().Add(wm.maxOutOfOrderness + maxFutureSlack))
 }
 
 // GetCurrentWatermark returns the current watermark time
